@@ -3,7 +3,7 @@
 From Coq Require Import NArith List Lia Bool.
 From FitV Require Import Gen.CrcTable Model.Crc Spec.CrcSpec Proofs.Util.
 Import ListNotations.
-Open Scope N_scope.
+Local Open Scope N_scope.
 
 Definition lin (f : N -> N) := forall a b, f (N.lxor a b) = N.lxor (f a) (f b).
 
